@@ -168,6 +168,7 @@ class PostgreSQLQueryBuilder(QueryBuilder):
             ),
         )
         if self._update_table:
+            ctx = ctx.copy(subquery=False, with_alias=False, subcriterion=False)
             if self._with:
                 querystring = self._with_sql(ctx)
             else:
